@@ -41,6 +41,35 @@ def main():
             raise tlc.MachineryError(f"binding demonstration failed: accepted={v.accepted} rejects={v.rejects}")
         print("selftest: binding demonstrated (untouched event accepted; corrupted and truncated events rejected:",
               v.rejects, ")")
+        # the same for a HISTORY with a crash point: a creation killed (process death) before its third file open; the recorded
+        # wreck is accepted, the same record with the destination's format attribute set (= "recognised after a failed
+        # creation") and with a neighbour's pixels changed are rejected
+        from .props import create_drivers  # noqa: F401
+        paths = [[], ["a"], ["a", "n"], ["b"]]
+        okf = {"kind": "none", "at": 0}
+        calls = [{"dest": ["b"], "mode": "a", "n": 3, "symm": True, "chunks": [[[0, 1, 5]]], "fault": okf, "noslash": False, "explicit_root": True},
+                 {"dest": ["a"], "mode": "a", "n": 3, "symm": True, "chunks": [[[0, 0, 1]], [[1, 2, 2]]], "fault": {"kind": "kill", "at": 4},
+                  "noslash": False, "explicit_root": True}]
+        hcase = {"paths": paths, "calls": calls}
+        hobs = core.DRIVERS["cr.steps"](hcase, ctx)
+        g0 = {"id": 0, "drv": "cr.steps", "case": hcase, "obs": hobs}
+        b1 = json.loads(json.dumps(g0)); b1["id"] = 1
+        end = b1["obs"]["calls"][1]["points"][-1]
+        next(nd for nd in end["file"]["nodes"] if nd["path"] == ["a"])["fmt"] = True
+        b2 = json.loads(json.dumps(g0)); b2["id"] = 2
+        end = b2["obs"]["calls"][1]["points"][-1]
+        next(nd for nd in end["file"]["nodes"] if nd["path"] == ["b"])["px"] = [[0, 1, 6]]
+        path2 = os.path.join(d, "h.ndjson")
+        with open(path2, "w") as f:
+            for e in (g0, b1, b2):
+                f.write(json.dumps(e) + "\n")
+        v2 = tlc.validate_traces("CreateTrace", "CreateTrace.cfg", [path2])
+        ids2 = sorted(i for i, _ in v2.rejects)
+        if hobs["calls"][1]["points"][-1].get("outcome") != "killed" or v2.accepted != 1 or ids2 != [1, 2]:
+            raise tlc.MachineryError(f"binding demonstration (history with a process death) failed: accepted={v2.accepted} "
+                                     f"rejects={v2.rejects}")
+        print("selftest: history binding demonstrated (killed creation accepted; forged recognition and a changed neighbour "
+              "rejected:", v2.rejects, ")")
     finally:
         ctx.cleanup()
         shutil.rmtree(d, ignore_errors=True)
